@@ -147,7 +147,10 @@ Section WithPhi.
     match vs with
     | XR k :: entries =>
         match R2Z k with
-        | Some z => match assoc_Z z keys entries with Some v => v | None => XNaN end
+        | Some z => match assoc_Z z keys entries with
+                    | Some (XR v) => XR v
+                    | _ => XNaN   (* absent key; the engine also refuses a non-finite selected value *)
+                    end
         | None => XNaN
         end
     | _ => XNaN
